@@ -67,7 +67,8 @@ structure Inv (st : State) : Prop where
   all : ∀ p, st.plan = some p →
       0 < p.maxSell ∧ p.maxSell ≤ p.alloc ∧ 0 ≤ p.liqPart.raw ∧ p.liqPart.raw ≤ decP ∧
       0 ≤ p.vest.dur ∧ 0 ≤ p.vest.startAfter ∧
-      (p.sold ≤ p.maxSell ∨ p.sold ≤ st.cfg.creationFee) ∧ p.claimed ≤ p.sold ∧ st.cfg.creationFee ≤ p.claimed
+      (p.sold ≤ p.maxSell ∨ p.sold ≤ st.cfg.creationFee) ∧ p.claimed ≤ p.sold ∧ st.cfg.creationFee ≤ p.claimed ∧
+      p.L = st.cfg.liqDec
   pre : ∀ p, st.plan = some p → p.settled = false →
       st.modIro + sumTo st.cfg.n st.iro = p.alloc ∧ sumTo st.cfg.n st.iro = p.sold - p.claimed ∧
       0 ≤ st.modIro ∧ p.claimed = st.cfg.creationFee ∧ 0 ≤ st.planLiq ∧ p.vest.claimed = 0
@@ -87,13 +88,13 @@ theorem inv_step {I : Int → Int} {T : Int → Int → Option Int} {st : State}
     | create alloc m n c L en stt pd lp vd vs =>
       obtain ⟨hc, rfl⟩ := doCreate_ok h
       unfold createOk at hc
-      obtain ⟨-, -, -, hl0, hl1, hvd, hvs, -, -, -, hn, -, -, -, hm0, hm1, hcp, -⟩ := hc
+      obtain ⟨-, -, -, hl0, hl1, hvd, hvs, -, -, -, hn, -, hL, -, hm0, hm1, hcp, -⟩ := hc
       obtain ⟨hz, hmz, hpl⟩ := hi.none_ hn
       refine ⟨hi.iro_nonneg, by simp, ?_, ?_, ?_⟩
       · intro p hp
         simp only [Option.some.injEq] at hp
         subst hp
-        exact ⟨hm0, hm1, hl0, hl1, hvd, hvs, Or.inr (Int.le_refl _), Int.le_refl _, Int.le_refl _⟩
+        exact ⟨hm0, hm1, hl0, hl1, hvd, hvs, Or.inr (Int.le_refl _), Int.le_refl _, Int.le_refl _, hL⟩
       · intro p hp _
         simp only [Option.some.injEq] at hp
         subst hp
@@ -119,7 +120,7 @@ theorem inv_step {I : Int → Int} {T : Int → Int → Option Int} {st : State}
       obtain ⟨hp, hns, _⟩ := tradeable_ok ht
       have han : a < st.cfg.n := by simpa [opActorsOk] using hact
       obtain ⟨h1, h2, h3, h4, h5, h6⟩ := hi.pre p hp hns
-      obtain ⟨a1, a2, a3, a4, a5, a6, a7, a8, a9⟩ := hi.all p hp
+      obtain ⟨a1, a2, a3, a4, a5, a6, a7, a8, a9, a10⟩ := hi.all p hp
       refine ⟨?_, by simp, ?_, ?_, ?_⟩
       · intro j; simp only [upd]; split
         · have := hi.iro_nonneg a; omega
@@ -127,7 +128,7 @@ theorem inv_step {I : Int → Int} {T : Int → Int → Option Int} {st : State}
       · intro q hq
         simp only [Option.some.injEq] at hq
         subst hq
-        exact ⟨a1, a2, a3, a4, a5, a6, Or.inl hms, by simp only []; omega, a9⟩
+        exact ⟨a1, a2, a3, a4, a5, a6, Or.inl hms, by simp only []; omega, a9, a10⟩
       · intro q hq _
         simp only [Option.some.injEq] at hq
         subst hq
@@ -143,7 +144,7 @@ theorem inv_step {I : Int → Int} {T : Int → Int → Option Int} {st : State}
       obtain ⟨hp, hns, _⟩ := tradeable_ok ht
       have han : a < st.cfg.n := by simpa [opActorsOk] using hact
       obtain ⟨h1, h2, h3, h4, h5, h6⟩ := hi.pre p hp hns
-      obtain ⟨a1, a2, a3, a4, a5, a6, a7, a8, a9⟩ := hi.all p hp
+      obtain ⟨a1, a2, a3, a4, a5, a6, a7, a8, a9, a10⟩ := hi.all p hp
       refine ⟨?_, by simp, ?_, ?_, ?_⟩
       · intro j; simp only [upd]; split
         · have := hi.iro_nonneg a; omega
@@ -151,7 +152,7 @@ theorem inv_step {I : Int → Int} {T : Int → Int → Option Int} {st : State}
       · intro q hq
         simp only [Option.some.injEq] at hq
         subst hq
-        exact ⟨a1, a2, a3, a4, a5, a6, Or.inl hms, by simp only []; omega, a9⟩
+        exact ⟨a1, a2, a3, a4, a5, a6, Or.inl hms, by simp only []; omega, a9, a10⟩
       · intro q hq _
         simp only [Option.some.injEq] at hq
         subst hq
@@ -167,7 +168,7 @@ theorem inv_step {I : Int → Int} {T : Int → Int → Option Int} {st : State}
       obtain ⟨hp, hns, _⟩ := tradeable_ok ht
       have han : a < st.cfg.n := by simpa [opActorsOk] using hact
       obtain ⟨h1, h2, h3, h4, h5, h6⟩ := hi.pre p hp hns
-      obtain ⟨a1, a2, a3, a4, a5, a6, a7, a8, a9⟩ := hi.all p hp
+      obtain ⟨a1, a2, a3, a4, a5, a6, a7, a8, a9, a10⟩ := hi.all p hp
       have hle := le_sumTo st.cfg.n st.iro hi.iro_nonneg a han
       refine ⟨?_, by simp, ?_, ?_, ?_⟩
       · intro j; simp only [upd]; split
@@ -176,7 +177,7 @@ theorem inv_step {I : Int → Int} {T : Int → Int → Option Int} {st : State}
       · intro q hq
         simp only [Option.some.injEq] at hq
         subst hq
-        refine ⟨a1, a2, a3, a4, a5, a6, ?_, by simp only []; omega, a9⟩
+        refine ⟨a1, a2, a3, a4, a5, a6, ?_, by simp only []; omega, a9, a10⟩
         simp only []; omega
       · intro q hq _
         simp only [Option.some.injEq] at hq
@@ -226,7 +227,7 @@ theorem inv_step {I : Int → Int} {T : Int → Int → Option Int} {st : State}
       obtain ⟨p, hp, hset, hb, hle, rfl⟩ := doClaim_ok h
       have han : a < st.cfg.n := by simpa [opActorsOk] using hact
       obtain ⟨h1, h2, h3, h4, h5⟩ := hi.post p hp hset
-      obtain ⟨a1, a2, a3, a4, a5, a6, a7, a8, a9⟩ := hi.all p hp
+      obtain ⟨a1, a2, a3, a4, a5, a6, a7, a8, a9, a10⟩ := hi.all p hp
       have hnn := hi.iro_nonneg a
       refine ⟨?_, by simp, ?_, ?_, ?_⟩
       · intro j; simp only [upd]; split
@@ -235,7 +236,7 @@ theorem inv_step {I : Int → Int} {T : Int → Int → Option Int} {st : State}
       · intro q hq
         simp only [Option.some.injEq] at hq
         subst hq
-        refine ⟨a1, a2, a3, a4, a5, a6, a7, ?_, ?_⟩ <;> simp only [] <;> omega
+        refine ⟨a1, a2, a3, a4, a5, a6, a7, ?_, ?_, a10⟩ <;> simp only [] <;> omega
       · intro q hq hs
         simp only [Option.some.injEq] at hq
         subst hq
@@ -290,5 +291,39 @@ theorem inv_run {I : Int → Int} {T : Int → Int → Option Int} (ops : List O
   induction ops with
   | nil => intro st h; exact h
   | cons o ops ih => intro st h; exact ih _ (inv_step o h)
+
+/-- messages never change the module parameters -/
+theorem step_cfg (I : Int → Int) (T : Int → Int → Option Int) (st : State) (op : Op) :
+    (step I T st op).1.cfg = st.cfg := by
+  rcases step_cases I T st op with h | ⟨_, h⟩
+  · rw [h]
+  · generalize (step I T st op).1 = st' at h
+    cases op with
+    | create alloc m n c L en stt pd lp vd vs => obtain ⟨_, rfl⟩ := doCreate_ok h; rfl
+    | time dt =>
+      simp only [exec] at h
+      split at h
+      · cases h
+      · cases h; rfl
+    | fund a amt =>
+      simp only [exec] at h
+      split at h
+      · cases h
+      · cases h; rfl
+    | buy a amt mc => obtain ⟨p, tot, fee, l1, _, _, _, _, _, _, _, rfl⟩ := doBuy_ok h; rfl
+    | bes a sp mt => obtain ⟨p, net, fee, tokens, l1, _, _, _, _, _, _, _, _, _, rfl⟩ := doBes_ok h; rfl
+    | sell a amt mi => obtain ⟨p, net, fee, l1, _, _, _, _, _, _, rfl⟩ := doSell_ok h; rfl
+    | enable a => obtain ⟨p, _, _, _, _, rfl⟩ := doEnable_ok h; rfl
+    | settle rf ok =>
+      rcases doSettle_ok h with ⟨_, rfl⟩ | ⟨p, _, _, _, rfl⟩ <;> rfl
+    | claim a => obtain ⟨p, _, _, _, _, rfl⟩ := doClaim_ok h; rfl
+    | claimv a => obtain ⟨p, amt, _, _, _, _, _, _, rfl⟩ := doClaimVested_ok h; rfl
+    | xfer a b amt => obtain ⟨_, _, rfl⟩ := doXfer_ok h; rfl
+
+theorem run_cfg (I : Int → Int) (T : Int → Int → Option Int) (ops : List Op) :
+    ∀ st, (run I T st ops).cfg = st.cfg := by
+  induction ops with
+  | nil => intro st; rfl
+  | cons o ops ih => intro st; show (run I T (step I T st o).1 ops).cfg = _; rw [ih, step_cfg]
 
 end DymVerif.Iro
